@@ -25,6 +25,7 @@ CHECKS = {
     "C07": "sr_world",
     "C08": "coherence",
     "C12": "sampler_matrix",
+    "C14": "lockstep",
 }
 
 KNOWN_FINDINGS_FILE = os.path.join(env.VERIF_ROOT, "known_findings.json")
